@@ -409,9 +409,34 @@ func (x *Exec) havocClosureCells(fr *frame, st *State, mc *ssa.MakeClosure, seen
 		return
 	}
 	seen[fn] = true
-	for _, bv := range mc.Bindings {
+	// a function literal with its own contract says which captured variables it assigns (modifies <name>, ...)
+	var only map[string]bool
+	if ct := x.contractFor(fn); ct != nil && ct.HasMod {
+		only = map[string]bool{}
+		for _, m := range ct.Modifies {
+			only[strings.TrimSpace(m)] = true
+		}
+	}
+	for i, bv := range mc.Bindings {
+		if only != nil && i < len(fn.FreeVars) && !only[fn.FreeVars[i].Name()] {
+			continue
+		}
 		if a, ok := bv.(*ssa.Alloc); ok && x.isRegCell(a) {
 			x.havocCell(st, a)
+		} else if a, ok := bv.(*ssa.Alloc); ok {
+			// an escaping variable lives in the heap at the reference of its Alloc
+			for f := fr; f != nil; f = f.parent {
+				if ref, ok := f.regs[a]; ok {
+					et := deref(a.Type())
+					if stt, isS := et.Underlying().(*types.Struct); isS {
+						x.havocStruct(st, et, stt, ref)
+					} else if !isAggregate(et) {
+						hn, hs := x.ptrHeap(et)
+						st.heaps[hn] = smt.Store(x.heap(st, hn, hs), ref, x.freshOf(st, "captured$"+a.Comment, et))
+					}
+					break
+				}
+			}
 		} else if fv, ok := bv.(*ssa.FreeVar); ok {
 			if a := x.cellOfFreeVar(fr, fv); a != nil {
 				x.havocCell(st, a)
@@ -658,6 +683,20 @@ func (x *Exec) havocLoc(st *State, loc string, env map[string]binding, pkg strin
 	ectx := &evalCtx{st: st, old: st, env: env, pkg: pkg}
 	if loc == "*" {
 		x.havocAll(st)
+		return
+	}
+	if loc == "fresh(*)" { // anything allocated since the verified function was entered may change, nothing older does
+		x.ctx.Fun("fresh$", []string{smt.Int}, smt.Bool)
+		for _, hn := range smt.SortedKeys(st.heaps) {
+			srt := x.heapSort[hn]
+			if !strings.HasPrefix(srt, "(Array Int ") {
+				continue
+			}
+			old := x.heap(st, hn, srt)
+			nh := x.ctx.Fresh(hn, srt)
+			st.assume(smt.Raw("(forall ((r!h Int)) (! (=> (not (fresh$ r!h)) (= (select "+nh.S+" r!h) (select "+old.S+" r!h))) :pattern ((select "+nh.S+" r!h))))", smt.Bool))
+			st.heaps[hn] = nh
+		}
 		return
 	}
 	if i := strings.Index(loc, "("); i > 0 && strings.HasSuffix(loc, ")") { // ghost heap g(obj, ...)
